@@ -456,3 +456,313 @@ Proof.
   intros e w x soft mixed hard a n hl rs r Hi Hx Ha Hh Hp Hg Hr. apply (reset_refused e w x); try assumption.
   right. apply (reset_target_zero_id w a n hl rs r); assumption.
 Qed.
+
+(* ---------- config ---------- *)
+Lemma cmd_config_arity : forall c g args s,
+  (forall k v, args <> [k; v]) -> cmd_config c g args s = (Err, s).
+Proof.
+  intros c g args s H. destruct args as [|k [|v [|y r]]]; try reflexivity.
+  contradiction (H k v). reflexivity.
+Qed.
+
+Lemma cmd_config_bad_key : forall c g key value s,
+  (forall sec k, split_all x2e key <> [sec; k]) -> cmd_config c g [key; value] s = (Err, s).
+Proof.
+  intros c g key value s H. unfold cmd_config.
+  destruct (split_all x2e key) as [|sec [|k [|y r]]]; try reflexivity.
+  contradiction (H sec k). reflexivity.
+Qed.
+
+(* strings.Split gives one piece more than there are separators *)
+Definition count_byte (c : byte) (s : bytes) : nat := length (filter (fun x => beqb x c) s).
+
+Lemma split_all_length : forall sep s, length (split_all sep s) = S (count_byte sep s).
+Proof.
+  intros sep s. unfold count_byte. induction s as [|c r IH]; cbn [split_all filter].
+  - reflexivity.
+  - destruct (beqb c sep).
+    + cbn [length]. rewrite IH. reflexivity.
+    + destruct (split_all sep r) as [|h t]; cbn [length] in IH |- *; [discriminate IH | exact IH].
+Qed.
+
+Lemma config_key_dots : forall key,
+  count_byte x2e key <> 1 -> forall sec k, split_all x2e key <> [sec; k].
+Proof.
+  intros key Hc sec k Heq. apply (f_equal (@length bytes)) in Heq.
+  rewrite split_all_length in Heq. cbn [length] in Heq. apply Hc. lia.
+Qed.
+
+Theorem config_arity_refused : forall e w x g args,
+  w_inited w = true -> loaded w x -> (forall k v, args <> [k; v]) ->
+  step (ACmd e (CConfig g args)) w = (w, OErr, []).
+Proof.
+  intros e w x g args Hi Hx H. apply (step_refused e _ w x); try assumption; [discriminate|].
+  cbn [dispatch]. apply cmd_config_arity. exact H.
+Qed.
+
+Theorem config_key_refused : forall e w x g key value,
+  w_inited w = true -> loaded w x -> count_byte x2e key <> 1 ->
+  step (ACmd e (CConfig g [key; value])) w = (w, OErr, []).
+Proof.
+  intros e w x g key value Hi Hx H. apply (step_refused e _ w x); try assumption; [discriminate|].
+  cbn [dispatch]. apply cmd_config_bad_key. apply config_key_dots. exact H.
+Qed.
+
+(* ---------- cat-file ---------- *)
+Lemma cmd_cat_file_arity : forall t p args s,
+  (forall a, args <> [a]) -> cmd_cat_file t p args s = (Err, s).
+Proof.
+  intros t p args s H. destruct args as [|a [|b r]]; try reflexivity. contradiction (H a). reflexivity.
+Qed.
+
+Lemma cmd_cat_file_bad : forall t p a s,
+  t && p = true \/ read_hash a = None \/
+  (exists id, read_hash a = Some id /\ get_obj (w_objs (ms_w s)) id = None) ->
+  cmd_cat_file t p [a] s = (Err, s).
+Proof.
+  intros t p a s H. unfold cmd_cat_file. ev.
+  destruct (t && p) eqn:Etp; cbn [negb]; [reflexivity|].
+  destruct H as [H|[H|(id & Hr & Hg)]]; [discriminate H | rewrite H; reflexivity|].
+  rewrite Hr. ev. rewrite Hg. reflexivity.
+Qed.
+
+Theorem cat_file_arity_refused : forall e w x t p args,
+  w_inited w = true -> loaded w x -> (forall a, args <> [a]) ->
+  step (ACmd e (CCatFile t p args)) w = (w, OErr, []).
+Proof.
+  intros e w x t p args Hi Hx H. apply (step_refused e _ w x); try assumption; [discriminate|].
+  cbn [dispatch]. apply cmd_cat_file_arity. exact H.
+Qed.
+
+Theorem cat_file_bad_refused : forall e w x t p a,
+  w_inited w = true -> loaded w x ->
+  t && p = true \/ read_hash a = None \/
+  (exists id, read_hash a = Some id /\ get_obj (w_objs w) id = None) ->
+  step (ACmd e (CCatFile t p [a])) w = (w, OErr, []).
+Proof.
+  intros e w x t p a Hi Hx H. apply (step_refused e _ w x); try assumption; [discriminate|].
+  cbn [dispatch]. apply cmd_cat_file_bad. exact H.
+Qed.
+
+(* ---------- update-ref ---------- *)
+Theorem update_ref_arity_refused : forall e w x args,
+  w_inited w = true -> loaded w x -> (forall r h, args <> [r; h]) ->
+  step (ACmd e (CUpdateRef args)) w = (w, OErr, []).
+Proof.
+  intros e w x args Hi Hx H. apply (step_refused e _ w x); try assumption; [discriminate|].
+  cbn [dispatch]. apply cmd_update_ref_arity. exact H.
+Qed.
+
+(* wrong pattern, wrong length, a non-hex digit, an id that is not a stored
+   commit, an unknown branch: [update_ref_target] is [None] *)
+Theorem update_ref_format_refused : forall e w x r h,
+  w_inited w = true -> loaded w x -> update_ref_target w r h = None ->
+  step (ACmd e (CUpdateRef [r; h])) w = (w, OErr, []).
+Proof.
+  intros e w x r h Hi Hx H. apply (step_refused e _ w x); try assumption; [discriminate|].
+  cbn [dispatch]. rewrite cmd_update_ref_eq, H. reflexivity.
+Qed.
+
+Lemma update_ref_target_none : forall w r h,
+  re_search re_branchRegexp r = false \/ length h <> 40 \/ forallb is_lower_hex h = false \/
+  (forall id, unhex h = Some id -> get_commit (w_objs w) id = None) \/
+  am_mem (w_refs w) (ref_leaf r) = false ->
+  update_ref_target w r h = None.
+Proof.
+  intros w r h H. unfold update_ref_target.
+  destruct (re_search re_branchRegexp r) eqn:E1; cbn [andb]; [|reflexivity].
+  destruct (Nat.eqb (length h) 40) eqn:E2; cbn [andb]; [|reflexivity].
+  destruct (forallb is_lower_hex h) eqn:E3; [|reflexivity].
+  destruct (unhex h) as [id|] eqn:E4; [|reflexivity].
+  destruct (get_commit (w_objs w) id) eqn:E5; [|reflexivity].
+  destruct (am_mem (w_refs w) (ref_leaf r)) eqn:E6; [|reflexivity].
+  apply Nat.eqb_eq in E2.
+  destruct H as [H|[H|[H|[H|H]]]]; try discriminate H; try contradiction.
+  rewrite (H id eq_refl) in E5. discriminate E5.
+Qed.
+
+(* ---------- switch: flag combinations ---------- *)
+Theorem switch_flags_refused : forall e w x args create,
+  w_inited w = true -> loaded w x ->
+  2 <= length args \/ (args = [] /\ create = []) \/ (args <> [] /\ create <> []) ->
+  step (ACmd e (CSwitch args create)) w = (w, OErr, []).
+Proof.
+  intros e w x args create Hi Hx H. apply (step_refused e _ w x); try assumption; [discriminate|].
+  cbn [dispatch].
+  destruct (cmd_switch_shapes e x args create (mkMS w [] None)) as [(a & -> & ->) | [(-> & Hn) | Herr]];
+    [| | exact Herr].
+  - destruct H as [H|[[H _]|[_ H]]]; [cbn [length] in H; lia | discriminate H | contradiction H; reflexivity].
+  - destruct H as [H|[[_ H]|[H _]]]; [cbn [length] in H; lia | subst create; discriminate Hn | contradiction H; reflexivity].
+Qed.
+
+(* ---------- branch: parameter combinations ---------- *)
+Definition branch_params_ok (args : list bytes) (lst : bool) (rn dl : bytes) : bool :=
+  (Nat.eqb (length args) 1 && negb lst && is_nil rn && is_nil dl)
+  || (is_nil args && lst && is_nil rn && is_nil dl)
+  || (is_nil args && negb lst && negb (is_nil rn) && is_nil dl)
+  || (is_nil args && negb lst && is_nil rn && negb (is_nil dl)).
+
+Lemma cmd_branch_params : forall e c args lst rn dl s,
+  branch_params_ok args lst rn dl = false -> cmd_branch e c args lst rn dl s = (Err, s).
+Proof.
+  intros e c args lst rn dl s H. unfold cmd_branch. cbv zeta. rewrite ev_bind_guard.
+  unfold branch_params_ok in H. rewrite H. reflexivity.
+Qed.
+
+Theorem branch_params_refused : forall e w x args lst rn dl,
+  w_inited w = true -> loaded w x -> branch_params_ok args lst rn dl = false ->
+  step (ACmd e (CBranch args lst rn dl)) w = (w, OErr, []).
+Proof.
+  intros e w x args lst rn dl Hi Hx H. apply (step_refused e _ w x); try assumption; [discriminate|].
+  cbn [dispatch]. apply cmd_branch_params. exact H.
+Qed.
+
+(* e.g. two names, a name together with --list, --rename together with --delete, nothing at all *)
+Example branch_params_examples : forall a b r d,
+  branch_params_ok [a; b] false [] [] = false /\
+  branch_params_ok [a] true [] [] = false /\
+  branch_params_ok [] false (x61 :: r) (x62 :: d) = false /\
+  branch_params_ok [a] false (x61 :: r) [] = false /\
+  branch_params_ok [] false [] [] = false.
+Proof. intros a b r d. repeat split; reflexivity. Qed.
+
+(* ---------- commit without identity ---------- *)
+Lemma cmd_commit_no_identity : forall e c msg s,
+  user_set (x_l c) (x_g c) = false -> cmd_commit e c msg s = (Err, s).
+Proof. intros e c msg s H. unfold cmd_commit. rewrite ev_bind_guard, H. reflexivity. Qed.
+
+Theorem commit_no_identity_refused : forall e w x msg,
+  w_inited w = true -> loaded w x -> user_set (x_l x) (x_g x) = false ->
+  step (ACmd e (CCommit msg)) w = (w, OErr, []).
+Proof.
+  intros e w x msg Hi Hx H. apply (step_refused e _ w x); try assumption; [discriminate|].
+  cbn [dispatch]. apply cmd_commit_no_identity. exact H.
+Qed.
+
+(* further refusals that come for free *)
+Theorem commit_nothing_staged_refused : forall e w x msg,
+  w_inited w = true -> loaded w x -> w_refs w = [] -> idx_of w = [] ->
+  step (ACmd e (CCommit msg)) w = (w, OErr, []).
+Proof.
+  intros e w x msg Hi Hx Hr Hidx. apply (step_refused e _ w x); try assumption; [discriminate|].
+  cbn [dispatch]. unfold cmd_commit. ev.
+  destruct (user_set (x_l x) (x_g x)); [|reflexivity]. ev. rewrite Hr. cbn [is_nil]. ev.
+  rewrite Hidx. reflexivity.
+Qed.
+
+Theorem log_no_branch_refused : forall e w x n,
+  w_inited w = true -> loaded w x -> w_refs w = [] ->
+  step (ACmd e (CLog n)) w = (w, OErr, []).
+Proof.
+  intros e w x n Hi Hx Hr. apply (step_refused e _ w x); try assumption; [discriminate|].
+  cbn [dispatch]. unfold cmd_log. ev. rewrite Hr. reflexivity.
+Qed.
+
+Theorem reflog_no_journal_refused : forall e w x,
+  w_inited w = true -> loaded w x -> w_hlog w = None ->
+  step (ACmd e CReflog) w = (w, OErr, []).
+Proof.
+  intros e w x Hi Hx Hh. apply (step_refused e _ w x); try assumption; [discriminate|].
+  cbn [dispatch]. unfold cmd_reflog. ev. rewrite Hh. reflexivity.
+Qed.
+
+(* ================================================================== *)
+(** * 3. The hand-written loops do not run out of fuel *)
+
+(* ---------- the binary search of the index (Index.GetEntry) ---------- *)
+(* On ANY list — sorted or not — the search interval shrinks at every round,
+   so the fuel [S (length es)] that [get_entry] passes is never used up:
+   more fuel gives the same answer. *)
+Lemma bsearch_mid : forall l r, l < r -> l <= Nat.div (l + r) 2 < r.
+Proof.
+  intros l r Hlt. split.
+  - apply Nat.div_le_lower_bound; lia.
+  - apply Nat.div_lt_upper_bound; lia.
+Qed.
+
+Lemma bsearch_fuel_irrelevant : forall f1 f2 es p l r,
+  l < r -> r - l < f1 -> r - l < f2 -> bsearch f1 es p l r = bsearch f2 es p l r.
+Proof.
+  induction f1 as [|f1 IH]; intros f2 es p l r Hlr H1 H2; [lia|].
+  destruct f2 as [|f2]; [lia|]. cbn [bsearch]. cbv zeta.
+  destruct (bsearch_mid l r Hlr) as [Hlo Hhi].
+  destruct (nth_error es (Nat.div (l + r) 2)) as [e|]; [|reflexivity].
+  destruct (bytes_eqb (e_path e) p); [reflexivity|].
+  destruct (blt (e_path e) p).
+  - destruct (Nat.ltb (S (Nat.div (l + r) 2)) r) eqn:E; [|reflexivity].
+    apply Nat.ltb_lt in E. apply IH; lia.
+  - destruct (Nat.ltb l (Nat.div (l + r) 2)) eqn:E; [|reflexivity].
+    apply Nat.ltb_lt in E. apply IH; lia.
+Qed.
+
+Theorem get_entry_fuel : forall es p k,
+  es <> [] -> bsearch (S (length es) + k) es p 0 (length es) = get_entry es p.
+Proof.
+  intros es p k Hne. unfold get_entry. destruct es as [|x r]; [contradiction Hne; reflexivity|].
+  apply bsearch_fuel_irrelevant; cbn [length]; lia.
+Qed.
+
+(* and on a canonical index it finds exactly the tracked paths (IndexFacts) *)
+Theorem get_entry_total : forall (es : list entry) (p : bytes),
+  Canonical es ->
+  (forall i e, get_entry es p = Some (i, e) -> nth_error es i = Some e /\ e_path e = p) /\
+  ((exists e, In e es /\ e_path e = p) -> exists i e, get_entry es p = Some (i, e)).
+Proof. exact get_entry_correct. Qed.
+
+(* ---------- the tree writer (write-tree, commit) ---------- *)
+Theorem write_tree_total : forall es, exists r, write_tree_top es = Some r.
+Proof. exact write_tree_fuel_any. Qed.
+
+Theorem write_tree_total_valid : forall es,
+  Forall valid_entry es -> exists r, write_tree_top es = Some r.
+Proof. exact write_tree_fuel. Qed.
+
+(* ---------- the history walk of [log] ---------- *)
+Theorem walk_history_fuel : forall st tip l k,
+  chain st tip l -> NoDup l ->
+  walk_history (S (S (2 * length st))) st [tip] [] 0 k = Some (firstn (Z.to_nat k) l).
+Proof. exact cmd_log_fuel. Qed.
+
+(* ---------- the tree lookup (Tree.GetNode) ---------- *)
+Theorem get_node_fuel : forall its p f,
+  Forall wf_item its -> Canonical (flat_items [] its) ->
+  In p (paths_of its) -> path_depth p < f ->
+  exists x, get_node_fuel f (map node_of its) p = Some x /\ is_leaf x = true /\
+            In (mkE (n_id x) p) (flat_items [] its).
+Proof. exact get_node_fuel_enough. Qed.
+
+(* ================================================================== *)
+Print Assumptions no_panic.
+Print Assumptions no_panic_fault.
+Print Assumptions run_cmd_nopanic.
+Print Assumptions refused_unchanged_generic.
+Print Assumptions load_ctx_pure.
+Print Assumptions not_inited_refused.
+Print Assumptions init_twice_refused.
+Print Assumptions load_failure_refused.
+Print Assumptions add_nothing_refused.
+Print Assumptions add_missing_refused.
+Print Assumptions rm_unknown_refused.
+Print Assumptions restore_nothing_refused.
+Print Assumptions restore_unknown_refused.
+Print Assumptions reset_refused.
+Print Assumptions reset_flags_refused.
+Print Assumptions reset_arity_refused.
+Print Assumptions reset_bad_arg_refused.
+Print Assumptions reset_beyond_refused.
+Print Assumptions reset_zero_id_refused.
+Print Assumptions config_arity_refused.
+Print Assumptions config_key_refused.
+Print Assumptions cat_file_arity_refused.
+Print Assumptions cat_file_bad_refused.
+Print Assumptions update_ref_arity_refused.
+Print Assumptions update_ref_format_refused.
+Print Assumptions switch_flags_refused.
+Print Assumptions branch_params_refused.
+Print Assumptions commit_no_identity_refused.
+Print Assumptions commit_nothing_staged_refused.
+Print Assumptions get_entry_fuel.
+Print Assumptions get_entry_total.
+Print Assumptions write_tree_total.
+Print Assumptions walk_history_fuel.
+Print Assumptions get_node_fuel.
